@@ -505,11 +505,11 @@ func (m *SyncMonitor) handlerProbe() {
 		data := req.Encode()
 		var resp []byte
 		var err error
-		m.S.Step(r, "sync handler probe getHighestCommonBlock", func() {
+		ran := m.S.Step(r, "sync handler probe getHighestCommonBlock", func() {
 			resp, err, _ = r.Conn.VerifHandleRPC("peer-probe", csync.RPCEndpointGetHighestCommonBlock, data)
 		})
 		simkit.Probe("c19_handler_probe_getHighestCommonBlock")
-		if err == nil && r.Up {
+		if ran && err == nil && r.Up {
 			m.checkHandler(asker, r, rpcRec{proc: csync.RPCEndpointGetHighestCommonBlock, req: data, resp: resp})
 			m.raise()
 		}
@@ -526,11 +526,11 @@ func (m *SyncMonitor) handlerProbe() {
 	data := (&csync.GetBlocksFromIDRequest{ID: id}).Encode()
 	var resp []byte
 	var err error
-	m.S.Step(r, "sync handler probe getBlocksFromId", func() {
+	ran := m.S.Step(r, "sync handler probe getBlocksFromId", func() {
 		resp, err, _ = r.Conn.VerifHandleRPC("peer-probe", csync.RPCEndpointGetBlocksFromID, data)
 	})
 	simkit.Probe("c19_handler_probe_getBlocksFromId")
-	if err == nil && r.Up {
+	if ran && err == nil && r.Up {
 		m.checkHandler(asker, r, rpcRec{proc: csync.RPCEndpointGetBlocksFromID, req: data, resp: resp})
 		m.raise()
 	}
